@@ -486,7 +486,7 @@ expandfunc(struct macro *m)
 	struct macroarg *arg;
 	struct array str, tok;
 	size_t i, depth, paren;
-	struct token *t;
+	struct token *t, cur;
 
 	/* read macro arguments */
 	paren = 0;
@@ -516,9 +516,13 @@ expandfunc(struct macro *m)
 				if (p->flags & PARAMSTR)
 					stringize(&str, t);
 			}
-			if (p->flags & PARAMTOK && !expand(t)) {
-				arrayaddbuf(&tok, t, sizeof(*t));
-				++arg[i].ntoken;
+			if (p->flags & PARAMTOK) {
+				/* expand() may pop the frame whose token array *t lives in */
+				cur = *t;
+				if (!expand(&cur)) {
+					arrayaddbuf(&tok, &cur, sizeof(cur));
+					++arg[i].ntoken;
+				}
 			}
 			t = rawnext();
 		}
